@@ -1,0 +1,34 @@
+#pragma once
+// Verification hooks. Everything in here is inert unless SQFVM_RUNTIME_VERIF is defined.
+#ifdef SQFVM_RUNTIME_VERIF
+#include <cstddef>
+namespace sqf::runtime { class runtime; }
+namespace sqf::runtime::verif
+{
+    enum class event
+    {
+        instruction_executed, // directly after instruction::execute returned
+        instruction_done,     // after the error handling of that instruction
+        frame_done,           // a completed frame was popped
+        slice_begin,          // scheduler selected a context
+        slice_end,            // scheduler is done with the context for this round
+        context_erased,       // scheduler is about to erase the active context
+        guard_enter,          // execution guard was acquired
+        guard_leave           // execution guard is about to be released
+    };
+    struct hooks
+    {
+        void (*point)(const char* tag);            // scheduling point (may block)
+        void (*on_event)(event kind, runtime& rt); // observation point
+        size_t slice;                              // 0 => default slice length
+    };
+    extern hooks g_hooks; // zero-initialised
+}
+#define SQFVM_VERIF_POINT(tag) do { if (::sqf::runtime::verif::g_hooks.point) ::sqf::runtime::verif::g_hooks.point(tag); } while (0)
+#define SQFVM_VERIF_EVENT(kind, rt) do { if (::sqf::runtime::verif::g_hooks.on_event) ::sqf::runtime::verif::g_hooks.on_event(::sqf::runtime::verif::event::kind, rt); } while (0)
+#define SQFVM_VERIF_SLICE(var) do { if ((var) == 150 && ::sqf::runtime::verif::g_hooks.slice) (var) = ::sqf::runtime::verif::g_hooks.slice; } while (0)
+#else
+#define SQFVM_VERIF_POINT(tag) ((void)0)
+#define SQFVM_VERIF_EVENT(kind, rt) ((void)0)
+#define SQFVM_VERIF_SLICE(var) ((void)0)
+#endif
